@@ -207,47 +207,56 @@ Definition no_out : out := mkOut false [] false false.
 
 Definition isnil {A} (l : list A) : bool := match l with [] => true | _ => false end.
 
-(* ---- AssembleWithTimestamp, assembly.go:536-610 (with getConnection :498-515 and
+(* ---- AssembleWithTimestamp, assembly.go:606-609: `if len(a.ret) > 0 { sendToConnection }` *)
+Definition finish_assemble (st : state) (isnew : bool) (ow : outcome work) : state * out :=
+  let ores :=
+    obind ow (fun w =>
+      if isnil (w_ret w) then Ok (mkRes (Some (w_c w)) (s_freeLastSeen st) (w_used w) [] false)
+      else send_to_connection w (s_freeLastSeen st) []) in
+  match ores with
+  | Ok r => (mkS (rs_conn r) (rs_free r) (rs_used r) (s_maxPer st) (s_maxTotal st) false,
+             mkOut isnew (rs_calls r) (rs_done r) false)
+  | _ => (mkS (s_conn st) (s_freeLastSeen st) (s_used st) (s_maxPer st) (s_maxTotal st) true,
+          mkOut isnew [] false true)
+  end.
+
+(* ---- AssembleWithTimestamp, assembly.go:567-605: the part under the connection lock *)
+Definition assemble_conn (st : state) (c : conn) (isnew : bool)
+    (seq : Z) (syn fin rst : bool) (bytes : list Z) (ts : Z) : state * out :=
+  let w0 := mkW c (s_used st) [] in
+  (* repaired code (fix: payload of a SYN seen after the position is known starts at
+     seq+1); insertIntoConn still reads t.Seq *)
+  let seq1 := if syn && negb (c_nextSeq c =? invalidSequence) then seq_add seq 1 else seq in
+  finish_assemble st isnew
+    (if c_nextSeq c =? invalidSequence then
+      if syn then
+        Ok (mkW (mkC (c_pages c) (c_queue c) (seq_add seq (lenZ bytes + 1)) (c_lastSeen c))
+                (s_used st) [mkR bytes 0 true false ts 0])
+      else insert_into_conn (s_maxPer st) (s_maxTotal st) seq bytes (rst || fin) ts w0
+    else if difference (c_nextSeq c) seq1 >? 0 then
+      insert_into_conn (s_maxPer st) (s_maxTotal st) seq bytes (rst || fin) ts w0
+    else
+      let '(b, nx) := byte_span (c_nextSeq c) seq1 bytes in
+      Ok (mkW (mkC (c_pages c) (c_queue c) nx (c_lastSeen c)) (s_used st)
+              [mkR b 0 false (rst || fin) ts (lenZ bytes - lenZ b)])).
+
+Definition assemble_locked (st : state) (c0 : conn) (isnew : bool)
+    (seq : Z) (syn fin rst : bool) (bytes : list Z) (ts : Z) : state * out :=
+  (* assembly.go:567-569 *)
+  let c := if c_lastSeen c0 <? ts then mkC (c_pages c0) (c_queue c0) (c_nextSeq c0) ts else c0 in
+  assemble_conn st c isnew seq syn fin rst bytes ts.
+
+(* ---- AssembleWithTimestamp, assembly.go:536-566 (with getConnection :498-515 and
    newConnection/reset) *)
 Definition assemble (st : state) (seq : Z) (syn fin rst : bool) (bytes : list Z) (ts : Z)
     : state * out :=
   if negb syn && negb fin && negb rst && isnil bytes then (st, no_out) else
   let endp := negb syn && isnil bytes in
-  let cn :=
-    match s_conn st with
-    | Some c => Some (c, false)
-    | None => if endp then None else Some (mkC 0 [] invalidSequence (s_freeLastSeen st), true)
-    end in
-  match cn with
-  | None => (st, no_out)
-  | Some (c0, isnew) =>
-    let c := if c_lastSeen c0 <? ts then mkC (c_pages c0) (c_queue c0) (c_nextSeq c0) ts else c0 in
-    let w0 := mkW c (s_used st) [] in
-    (* repaired code (fix: payload of a SYN seen after the position is known starts at
-       seq+1); insertIntoConn still reads t.Seq *)
-    let seq1 := if syn && negb (c_nextSeq c =? invalidSequence) then seq_add seq 1 else seq in
-    let ow :=
-      if c_nextSeq c =? invalidSequence then
-        if syn then
-          Ok (mkW (mkC (c_pages c) (c_queue c) (seq_add seq (lenZ bytes + 1)) (c_lastSeen c))
-                  (s_used st) [mkR bytes 0 true false ts 0])
-        else insert_into_conn (s_maxPer st) (s_maxTotal st) seq bytes (rst || fin) ts w0
-      else if difference (c_nextSeq c) seq1 >? 0 then
-        insert_into_conn (s_maxPer st) (s_maxTotal st) seq bytes (rst || fin) ts w0
-      else
-        let '(b, nx) := byte_span (c_nextSeq c) seq1 bytes in
-        Ok (mkW (mkC (c_pages c) (c_queue c) nx (c_lastSeen c)) (s_used st)
-                [mkR b 0 false (rst || fin) ts (lenZ bytes - lenZ b)]) in
-    let ores :=
-      obind ow (fun w =>
-        if isnil (w_ret w) then Ok (mkRes (Some (w_c w)) (s_freeLastSeen st) (w_used w) [] false)
-        else send_to_connection w (s_freeLastSeen st) []) in
-    match ores with
-    | Ok r => (mkS (rs_conn r) (rs_free r) (rs_used r) (s_maxPer st) (s_maxTotal st) false,
-               mkOut isnew (rs_calls r) (rs_done r) false)
-    | _ => (mkS (s_conn st) (s_freeLastSeen st) (s_used st) (s_maxPer st) (s_maxTotal st) true,
-            mkOut isnew [] false true)
-    end
+  match s_conn st with
+  | Some c => assemble_locked st c false seq syn fin rst bytes ts
+  | None =>
+    if endp then (st, no_out)
+    else assemble_locked st (mkC 0 [] invalidSequence (s_freeLastSeen st)) true seq syn fin rst bytes ts
   end.
 
 (* ---- FlushWithOptions{CloseAll:true, T}, assembly.go:238-274, for the one connection.
